@@ -12,8 +12,13 @@ Lib == <<MacroS("m", <<"p">>, <<Text("m("), PrintS(NameE("p")), Text(")")>>)>>
 Base == <<Text("^"), BlockS("a", <<Text("ba")>>), Text("|"), BlockS("b", <<Text("bb"), PrintS(NameE("x"))>>), Text("$")>>
 Mid == <<ExtendsS(StrE("base")), BlockS("a", <<Text("ma("), PrintS(CallE("parent", <<>>)), Text(")")>>)>>
 Inc == <<Text("<"), PrintS(NameE("x")), Text(">")>>
-Bad == <<[k |-> "syntaxerror"]>>
-Others == ("lib" :> Lib) @@ ("base" :> Base) @@ ("mid" :> Mid) @@ ("inc" :> Inc) @@ ("bad" :> Bad)
+(* templates that load but do not parse: 21 different ways of not being a template (harness/ast.go badSources), among them the
+   four the parser reports without a position *)
+NBad == 21
+Bad(v) == <<[k |-> "syntaxerror", v |-> v]>>
+BadName(v) == "bad" \o ToString(v)
+Others == ("lib" :> Lib) @@ ("base" :> Base) @@ ("mid" :> Mid) @@ ("inc" :> Inc) @@ ("bad" :> Bad(0))
+          @@ [nm \in {BadName(v) : v \in 0..(NBad - 1)} |-> Bad(CHOOSE v \in 0..(NBad - 1) : BadName(v) = nm)]
 
 Bases == <<
   <<Text("a"), PrintS(NameE("x")), Text("b"), PrintS(NameE("x")), Text("c")>>,
@@ -57,6 +62,15 @@ Programs ==
   \cup { [t |-> InsertInBody(Bases[b], ErrStmt(ErrKinds[e])), tag |-> "errbody-" \o ErrKinds[e]]
            : b \in {q \in 1..Len(Bases) : FirstBody(Bases[q]) # 0}, e \in 1..7 }
   \cup { [t |-> <<ImportS(StrE("lib"), "L"), Text("a"), PrintS(AttrCall(NameE("L"), "nope", <<>>)), Text("b")>>, tag |-> "err-macro"] }
+  (* every unparseable template, reached as the entry itself, by include, extends, embed, import, from and use *)
+  \cup UNION { { [t |-> Bad(v), tag |-> "err-unparseable-entry"],
+                 [t |-> <<Text("a"), IncludeS(StrE(BadName(v)), NoE, FALSE), Text("b")>>, tag |-> "err-unparseable-include"],
+                 [t |-> <<ExtendsS(StrE(BadName(v))), BlockS("a", <<Text("x")>>)>>, tag |-> "err-unparseable-extends"],
+                 [t |-> <<Text("a"), EmbedS(StrE(BadName(v)), NoE, FALSE, <<>>), Text("b")>>, tag |-> "err-unparseable-embed"],
+                 [t |-> <<Text("a"), ImportS(StrE(BadName(v)), "L"), Text("b")>>, tag |-> "err-unparseable-import"],
+                 [t |-> <<Text("a"), FromS(StrE(BadName(v)), << <<"m", "m">> >>), Text("b")>>, tag |-> "err-unparseable-from"],
+                 [t |-> <<UseS(StrE(BadName(v)), <<>>), Text("a"), BlockS("a", <<Text("x")>>)>>, tag |-> "err-unparseable-use"] }
+              : v \in 0..(NBad - 1) }
 Valid(pr) == \A q \in 1..Len(pr.t) : pr.t[q] # <<>>
 Cases == SetToSeq({pr \in Programs : Valid(pr)})
 Picked == 1..Len(Cases)
